@@ -87,6 +87,9 @@ type World struct {
 	Oracles OracleSet
 	// extra per-step observers (used by property-specific runners)
 	AfterStep func(w *World, st *Step) *Violation
+	// CheckNow, when set, is the property's own oracle, run by steps that leave a failed mutation behind
+	// before any model comparison (which would only cut the run as a foreign divergence)
+	CheckNow func(w *World) *Violation
 	// called after every failed commit attempt (C14)
 	AfterFailedCommit func(w *World, st *Step, attempt int) *Violation
 	BeforeCommitAttempt func(w *World, st *Step, attempt int)
